@@ -286,3 +286,30 @@ def _c03_dtypes(tier, seed):
 
 
 EXTRAS.setdefault("C03", []).append(_c03_dtypes)
+
+prop("C19",
+     level="proof",
+     level_text=(
+         "Deductive proof: for every index lambda the public API produces "
+         "and for hand-built near-misses of every expression head the matcher "
+         "inspects x every operand class, whatever "
+         "index_lambda_to_high_level_op returns denotes (NumPy meaning of the "
+         "operation on the identified operands, broadcast) the same pointwise "
+         "function as the lambda for ALL indices, axis lengths and operand "
+         "values; API-produced lambdas are recognised with operands in the "
+         "producer's order; anything else raises UnknownIndexLambdaExpr and "
+         "no other exception."),
+     level_note=(
+         "Non-commutative operations are uninterpreted functions, so operand "
+         "order matters. Type casts are read as identity (exact arithmetic), "
+         "consistent with TypeCastDropper. The case analysis over term heads "
+         "is complete for the matcher's bounded look-ahead; operand rank 2."),
+     technique="contract-based deductive verification: symbolic execution of "
+               "the real raiser + denotational equivalence VCs (z3)",
+     design_ref="DESIGN.md §6 C19",
+     explanation="see contracts/c19_raising.py",
+     structural_bound="operand rank 0..2; 17 heads x 9 operand classes "
+                      "(pairs); reductions with 6 bound/shape variants",
+     trusted_base=["index-lambda semantics (pyvc/den.py)"],
+     assumptions=["exact arithmetic; casts value-preserving"],
+     unverified_surroundings=[])
